@@ -22,9 +22,27 @@ metaclasses, relate instances and perform navigations and queries.
 
 import collections.abc
 import logging
+import os
 import xtuml
 
 from functools import partial
+
+
+def _verif_traced(op):
+    '''
+    Verification hook. Unless the environment variable PYXTUML_VERIF is set,
+    the decorated function is left untouched; otherwise it is handed to the
+    tracer of the verification harness (module xtuml_verif_hook), which
+    records each top-level call together with the model state around it.
+    '''
+    def decorate(fn):
+        if not os.environ.get('PYXTUML_VERIF'):
+            return fn
+        
+        import xtuml_verif_hook
+        return xtuml_verif_hook.traced(op, fn)
+    
+    return decorate
 
 
 logger = logging.getLogger(__name__)
@@ -575,6 +593,7 @@ class MetaClass(object):
         else:
             raise MetaException("Unknown type named '%s'" % type_name)
         
+    @_verif_traced('new')
     def new(self, *args, **kwargs):
         '''
         Create and return a new instance.
@@ -988,6 +1007,7 @@ def _find_link(inst1, inst2, rel_id, phrase):
     raise UnknownLinkException(metaclass1.kind, metaclass2.kind, rel_id, phrase)
 
 
+@_verif_traced('relate')
 def relate(from_instance, to_instance, rel_id, phrase=''):
     '''
     Relate *from_instance* to *to_instance* across *rel_id*. For reflexive
@@ -1012,6 +1032,7 @@ def relate(from_instance, to_instance, rel_id, phrase=''):
     return True
 
 
+@_verif_traced('unrelate')
 def unrelate(from_instance, to_instance, rel_id, phrase=''):
     '''
     Unrelate *from_instance* from *to_instance* across *rel_id*. For reflexive
@@ -1055,6 +1076,7 @@ def get_metamodel(class_or_instance):
     return get_metaclass(class_or_instance).metamodel
 
 
+@_verif_traced('delete')
 def delete(instance, disconnect=True):
     '''
     Delete an *instance* from its metaclass instance pool and optionally
